@@ -16,6 +16,10 @@ def main():
     ap.add_argument("--only")
     a = ap.parse_args()
     seed = int(os.environ.get("VERIF_SEED", "0") or 0)
+    if "VERIF_XCHECK" not in os.environ and not a.replay:
+        # solver cross-check rate (vsym.SymPath._xcheck): every n-th deciding `unsat`
+        from vlib import vsym
+        vsym.XCHECK = 500 if a.tier == "quick" else 100
     mod = importlib.import_module("checks.%s" % a.pid.lower())
     if hasattr(mod, "main"):
         sys.exit(mod.main(a.tier, seed, a))
